@@ -93,5 +93,14 @@ pub fn run(cx: &mut Cx) -> String {
             c01::judge_and_shrink(case, st, &|c, st| judge_case(c, tracing, st))
         });
     }
+    // focus: the same generic helpers instantiated at plain lists and at associative lists
+    // (`List<Pair<k, v>>` is a map at the Data level) within one program
+    let cfg2 = AikCfg { pairs_bias: true, cast_weight: 8, abort_weight: 1, trace_weight: 0, expect_weight: 1, closure_weight: 0, max_adts: 1, max_helpers: 2, ..AikCfg::default() };
+    for (name, tracing) in [("pairs-and-lists-silent", Tracing::All(TraceLevel::Silent)), ("pairs-and-lists-verbose", Tracing::All(TraceLevel::Verbose))] {
+        cx.prop(name, tier.of(4_000, 100_000), 3000, |src, st| {
+            let case = c01::gen_case(src, &cfg2, 8);
+            c01::judge_and_shrink(case, st, &|c, st| judge_case(c, tracing, st))
+        });
+    }
     RULE.to_string()
 }
